@@ -37,6 +37,7 @@ def specs(tier):
     add('DD = /\\d+/;\nWW = /\\w+-/;\nstart = DD | WW;\n')
     add('XX = /\\.\\*\\+\\?/;\nYY = /\\(\\)\\[\\]\\{\\}\\|\\$/;\nstart = XX | YY;\n')
     add('TT = /\\x7E\\x21/;\nstart = TT "~" | "`";\n')
+    add('AA = /i(f|n)/;\nID = /[a-z]+/;\nNUM = /[0-9]+/;\nstart = "if" "in" AA ID NUM;\n')   # a terminal owning no state in the middle of the definition order
     if tier == 'thorough':
         for f in sorted(os.listdir(FIXTURES)):
             if f.endswith('.grammar'):
@@ -305,13 +306,20 @@ func checkStreamE(l *Lexer, text []byte, exp []refTokE, what string) {
 // NextToken, evalDFA and reader.
 func harnessEmittedScan() {
 	pad := scanPads[verif.Pick("pad", len(scanPads))]
-	tail := scanTails[verif.Pick("tail", len(scanTails))]
+	ti := verif.Pick("tail", len(scanTails))
+	tail := scanTails[ti]
+	// a shortest text leading the token automaton into one of its states (every state in turn; only without padding)
+	hi := verif.Pick("head", len(scanHeads))
+	if pad != 0 || ti != 0 {
+		verif.Assume(hi == 0) // heads only without padding and with the first tail
+	}
+	head := scanHeads[hi]
 	n := verif.Len("n", 0, scanN)
 	sym := verif.Bytes("b", n)
 	for i := range sym {
 		verif.Assume(verif.And(sym[i] >= 1, sym[i] <= 0x7F))
 	}
-	text := make([]byte, 0, pad+n+len(tail))
+	text := make([]byte, 0, pad+n+len(tail)+len(head))
 	for i := 0; i < pad; i++ {
 		if i%61 == 60 {
 			text = append(text, 10)
@@ -319,6 +327,7 @@ func harnessEmittedScan() {
 			text = append(text, 32)
 		}
 	}
+	text = append(text, head...)
 	text = append(text, sym...)
 	text = append(text, tail...)
 	if len(text) == 0 {
@@ -335,9 +344,31 @@ func harnessEmittedScan() {
 """
 
 
+def access_words_auto(dfa_dump):
+    """A shortest text leading the token automaton into each of its states (printable ASCII preferred)."""
+    import tvsmt
+    from collections import deque
+    auto = tvsmt.Auto(dfa_dump)
+    words = {auto.start: ''}
+    dq = deque([auto.start])
+    while dq:
+        q = dq.popleft()
+        for (a, b), t in auto.rows.get(q, ()):
+            if t in words:
+                continue
+            cands = [c for c in (max(a, 0x21), a) if a <= c <= b and (c <= 0x7E or c >= 0xA0) and not (0xD800 <= c <= 0xDFFF)]
+            if not cands:
+                continue
+            words[t] = words[q] + chr(cands[0])
+            dq.append(t)
+    out = [words[q] for q in sorted(words)]
+    return [''] + [w for w in out if w]
+
+
 def gen_scan_harness(o, sc, pads, tails, n):
-    extra = C19_EXTRA + '\nvar scanPads = []int{%s}\nvar scanTails = []string{%s}\n\nconst scanN = %d\n' % (
-        ', '.join(str(p) for p in pads), ', '.join(gogen.go_str(t) for t in tails), n)
+    heads = access_words_auto(o['dfa'])[:40]
+    extra = C19_EXTRA + '\nvar scanPads = []int{%s}\nvar scanTails = []string{%s}\nvar scanHeads = []string{%s}\n\nconst scanN = %d\n' % (
+        ', '.join(str(p) for p in pads), ', '.join(gogen.go_str(t) for t in tails), ', '.join(gogen.go_str(t) for t in heads), n)
     ov, hp = gen_harness(o, sc, extra)
     # the scan harness needs more imports than the table harness
     src = open(hp).read().replace('import (\n\t"io"\n', 'import (\n\t"io"\n\t"strings"\n\t"unicode/utf8"\n')
